@@ -5,8 +5,8 @@ import GoomVerif.Lemmas.C12L
 
 `C12M.run fixed` is the model of goom's builder / cache / mocker code (Model/ApiC12.lean, with fixes F7 and F14),
 `C12M.Lww.run` the last-writer-wins reference (Model/LwwC12.lean).  Histories are arbitrary lists of
-`Op` = Pkg | Reset | Var lookup | Struct(..).Method(<unknown>) | (Func / Struct.Method / Interface.Method / ExportFunc
-lookup followed by look | Apply k | Return | When | When..Return | Returns | Cancel); after every op every target is
+`Op` = Pkg | Reset | Var lookup | Struct(..).Method(<unknown>) | (Func / Struct.Method / Interface.Method / ExportFunc /
+ExportStruct.Method lookup followed by look | Apply k | Return | When | When..Return | Returns | Cancel); after every op every target is
 called twice. -/
 namespace C12
 open C12M
@@ -34,6 +34,7 @@ theorem lookup_continues (s : State) (hw : WF s) (hd : Handle) (mid : Nat)
   · rw [h] at hl; exact ⟨(Option.some.inj hl).symm, hm, hinst⟩
   · rw [h] at hl; cases hl
 
+set_option maxRecDepth 8192 in
 /-- the hypotheses of `lookup_continues` are met by a non-trivial reachable state: after `Func(fA).Return(1)` the
     mocker 0 is live for fA and owns a When -/
 example : live (exec fixed init [.h (.fn false) (.stub (.ret 1))]) (tgtOf .p0 (.fn false)) = some 0
@@ -52,6 +53,7 @@ theorem lookup_after_cancel (s : State) (hw : WF s) (hd : Handle)
   · rw [h] at hl; cases hl
   · exact ⟨hmid, hwhen, hguard, live_some.mpr ⟨by rw [hslot, if_pos rfl], hcan⟩, hinst⟩
 
+set_option maxRecDepth 8192 in
 /-- a reachable state with a cancelled cached mocker: after `Func(fA).Apply(k1); Func(fA).Cancel()` -/
 example : live (exec fixed init [.h (.fn false) (.apply 1), .h (.fn false) .cancel]) (tgtOf .p0 (.fn false)) = none
     ∧ slot (exec fixed init [.h (.fn false) (.apply 1), .h (.fn false) .cancel]) (.fn false) = some 0 := by decide
@@ -69,6 +71,7 @@ theorem reset_fresh (s : State) (a : Lww) (hw : WF s) (hr : R s a) :
   rw [reset_live_none hw t] at this
   exact this.1
 
+set_option maxRecDepth 8192 in
 /-- a reachable state in which Reset has something to undo: a stub on a method and a callback on the interface method -/
 example : (exec fixed init [.h (.st true) (.stub (.whenRet 1 5)), .h .im (.apply 2)]).inst (.st true) = .via 0
     ∧ (exec fixed init [.h (.st true) (.stub (.whenRet 1 5)), .h .im (.apply 2)]).inst .im = .cb 2 := by decide
@@ -80,7 +83,7 @@ def isLookup : Op → Bool
   | _ => true
 
 /-- **A Pkg override applies to the next lookup only.**  Whatever package was set, after any op that performs a
-    lookup (Func, Struct, Interface, ExportFunc — also when the instruction that follows panics — and Var) the
+    lookup (Func, Struct, Interface, ExportFunc, ExportStruct — also when the instruction that follows panics — and Var) the
     builder's package is the caller's again, so the lookup after it resolves names in the caller's package. -/
 theorem pkg_one_shot (s : State) (p : Pkg) (op : Op) (h : isLookup op = true) :
     (step fixed (step fixed s (.pkg p)).1 op).1.b.pkg = .p0 := by
@@ -96,21 +99,23 @@ where
       unfold ifaceLookup; split
       · split <;> rfl
       · rfl
-    cases hd <;> simp only [lookup] <;> (repeat' split) <;> simp_all [reset2CurPkg, setPkg, alloc, structLookup]
+    cases hd <;> simp only [lookup] <;> (repeat' split) <;> simp_all [reset2CurPkg, setPkg, alloc, structLookup, exportStructLookup]
 
-/-- …and the override is really used by that next lookup: in every reachable state, `Pkg(p); ExportFunc(n)` yields the
-    mocker for `n` of package `p`, and the ExportFunc after it the mocker for `m` of the caller's package. -/
-theorem pkg_used_once (s : State) (a : Lww) (hw : WF s) (hr : R s a) (p : Pkg) (n m : XName) (ins : Instr) :
+/-- …and the override is really used by that next lookup, for every pair of lookup kinds (Func, Struct.Method,
+    Interface.Method, ExportFunc, ExportStruct.Method), whether the lookups hit the cache or not: in every reachable
+    state, after `Pkg(p)` the lookup `hd1` yields the mocker of `hd1`'s target in package `p`, and the lookup `hd2`
+    after it the mocker of `hd2`'s target in the caller's package. -/
+theorem pkg_used_once (s : State) (a : Lww) (hw : WF s) (hr : R s a) (p : Pkg) (hd1 hd2 : Handle) (ins : Instr) :
     let s1 := (step fixed s (.pkg p)).1
-    let s2 := (step fixed s1 (.h (.xf n) ins)).1
-    ((lookup s1 (.xf n)).1.mks (lookup s1 (.xf n)).2).tgt = .xf p n ∧
-    ((lookup s2 (.xf m)).1.mks (lookup s2 (.xf m)).2).tgt = .xf .p0 m := by
+    let s2 := (step fixed s1 (.h hd1 ins)).1
+    ((lookup s1 hd1).1.mks (lookup s1 hd1).2).tgt = tgtOf p hd1 ∧
+    ((lookup s2 hd2).1.mks (lookup s2 hd2).2).tgt = tgtOf .p0 hd2 := by
   intro s1 s2
   obtain ⟨hw1, hr1⟩ := step_sim hw hr (.pkg p)
-  obtain ⟨hw2, _⟩ := step_sim hw1 hr1 (.h (.xf n) ins)
-  have h1 := lookup_ok s1 (.xf n) hw1
-  have h2 := lookup_ok s2 (.xf m) hw2
-  have hp2 : s2.b.pkg = .p0 := pkg_one_shot s p (.h (.xf n) ins) rfl
+  obtain ⟨hw2, _⟩ := step_sim hw1 hr1 (.h hd1 ins)
+  have h1 := lookup_ok s1 hd1 hw1
+  have h2 := lookup_ok s2 hd2 hw2
+  have hp2 : s2.b.pkg = .p0 := pkg_one_shot s p (.h hd1 ins) rfl
   refine ⟨tgt_of_ok h1, ?_⟩
   have := tgt_of_ok h2
   rw [hp2] at this; exact this
